@@ -1,6 +1,8 @@
 import Soa.Lemmas.Positions
 import Soa.Props.C01
 import Soa.Props.C03
+import Soa.Model.Pinned
+import Soa.Extracted.Bodies
 /-!
 # C15 — element references convert and replace faithfully
 
@@ -61,5 +63,14 @@ theorem replace_conserves (dr : Bool) (c e : Cols) (n i : Nat) (hc : c.lock n) (
 
 /-! non-vacuity -/
 example : (toOwned C01.exC 1).1 = [16, 17, 18, 19] := by decide
+
+/-- **text pin**: the generated functions this property's hand-written model describes have, in
+    /repo today, exactly the text the model was written from (`Soa/Model/Pinned.lean`) -/
+theorem bodies_pinned :
+    Soa.Extracted.bodies.filter (fun r => Soa.Model.scopeOf r == "C15") =
+    Soa.Model.pinned.filter (fun r => Soa.Model.scopeOf r == "C15") := by decide +kernel
+
+theorem bodies_pinned_nonempty :
+    (Soa.Model.pinned.filter (fun r => Soa.Model.scopeOf r == "C15")).length ≥ 4 := by decide +kernel
 
 end Soa.C15
